@@ -1137,9 +1137,7 @@ def part_cfg(ck, classes):
     ck.part('cfg_token_mutations', mutated_expressions=mut_hi)
     # all token strings up to a length bound
     maxlen = ck.q(5, 6)
-    items = [(1, None, (0, 1))]
-    r0 = [cfg_str0()]
-    ps = absorb(r0, 'cfg_empty')
+    absorb([cfg_str0()], 'cfg_empty')
     items = []
     for n in range(1, maxlen + 1):
         for first in TOKS:
@@ -1184,7 +1182,8 @@ def main():
     ck.assume('version strings with fewer than three components are read with the missing ones as zero (pinned by cargotests)')
     ck.assume('unspecified, skipped and counted: a pre-release version inside the bounds of a requirement that names a pre-release of a '
               '*different* major.minor.patch (Cargo rejects, meson documents "any pre-release comparator enables pre-releases"); '
-              'cfg trailing commas "all(a,)" / "not(a,)"; not enumerated: "!=", "*" inside a comma list, quoted cfg values containing '
+              'cfg trailing commas "all(a,)" / "not(a,)"; a bare all/any/not where an option name may stand (Cargo: error, rustc: option '
+              'name - either MesonException or the rustc value is accepted, e.g. cfg(all) -> False); not enumerated: "!=", "*" inside a comma list, quoted cfg values containing '
               'separators, identifiers with "." or "r#", the cfg literals true/false')
     ck.assume('cfg configuration is the Dict[str,str] the interpreter builds (name-only options map to ""); name="v" holds iff the name is '
               'present with exactly that value')
